@@ -1,6 +1,7 @@
 package swagen
 
 import (
+	"encoding/json"
 	"strings"
 
 	"github.com/getkin/kin-openapi/openapi3"
@@ -491,4 +492,151 @@ func vhC08RefsClosed(symParam, symReturn bool) {
 		}
 	}
 	_ = blocked
+}
+
+// ---- C08 with the real 3.0 validator in the loop (kin-openapi's Validate interpreted from source, not the stand-in):
+// whatever swagen30.GenerateSpec returns without an error is a document in which every path template name has
+// exactly one matching required path parameter and vice versa, parameter names are unique per location and every
+// response has a description.
+func vh_C08_written_30_is_closed_Q() {
+	symxRealLibrary("openapi3.Validate")
+	// two routes whose templates may differ only in the name of a parameter, or coincide, or be unrelated
+	names := []string{"id", "key"}
+	n0, n1 := names[symxChoice("name0", 2)], names[symxChoice("name1", 2)]
+	lit1 := []string{"by", "of"}[symxChoice("lit1", 2)]
+	verb1 := []definitions.HttpVerb{definitions.HttpGet, definitions.HttpPost}[symxChoice("verb1", 2)]
+	// accepted projects only: two routes of one verb whose templates overlap are a route conflict (C15)
+	symxAssume(!(lit1 == "by" && verb1 == definitions.HttpGet))
+	mk := func(op string, verb definitions.HttpVerb, lit, name string) definitions.RouteMetadata {
+		return definitions.RouteMetadata{OperationId: op, HttpVerb: verb, RestMetadata: definitions.RestMetadata{Path: "/" + lit + "/{" + name + "}"},
+			FuncParams: []definitions.FuncParam{{ParamMeta: definitions.ParamMeta{Name: "p", TypeMeta: definitions.TypeMetadata{Name: "string"}}, PassedIn: definitions.PassedInPath, NameInSchema: name, Validator: "required"}},
+			Responses:  vhErrorOnly(), ResponseSuccessCode: 204, ResponseDescription: "ok"}
+	}
+	defs := []definitions.ControllerMetadata{{Name: "Ctl", Tag: "T", RestMetadata: definitions.RestMetadata{Path: "/items"},
+		Routes: []definitions.RouteMetadata{mk("A", definitions.HttpGet, "by", n0), mk("B", verb1, lit1, n1)}}}
+	cfg := &definitions.OpenAPIGeneratorConfig{OpenAPI: "3.0.0", BaseURL: "https://x", Info: definitions.OpenAPIInfo{Title: "t", Version: "1"}}
+	models := &definitions.Models{Structs: []definitions.StructMetadata{{Name: definitions.Rfc7807ErrorName}}}
+	out, err := swagen30.GenerateSpec(cfg, defs, models)
+	if err != nil {
+		symxCover("C08.written.refused")
+		return // the command fails and writes nothing (gate harness)
+	}
+	symxCover("C08.written.accepted")
+	var doc struct {
+		Paths map[string]map[string]struct {
+			Parameters []struct {
+				Name     string `json:"name"`
+				In       string `json:"in"`
+				Required bool   `json:"required"`
+			} `json:"parameters"`
+			Responses map[string]struct {
+				Description *string `json:"description"`
+			} `json:"responses"`
+		} `json:"paths"`
+	}
+	symxAssert(json.Unmarshal(out, &doc) == nil, "C08.written.document-parses")
+	nOps := 0
+	for _, p := range vhSortedAnyKeys(doc.Paths) {
+		// names in the template
+		var tnames []string
+		for i := 0; i < len(p); i++ {
+			if p[i] == '{' {
+				j := i
+				for j < len(p) && p[j] != '}' {
+					j++
+				}
+				tnames = append(tnames, p[i+1:j])
+			}
+		}
+		item := doc.Paths[p]
+		for _, verb := range []string{"get", "post"} {
+			op, ok := item[verb]
+			if !ok {
+				continue
+			}
+			nOps++
+			var pnames []string
+			for _, prm := range op.Parameters {
+				if prm.In == "path" {
+					symxAssert(prm.Required, "C08.written.path-parameters-are-required")
+					symxAssert(!vhContainsStr(pnames, prm.Name), "C08.written.parameter-names-unique-per-location")
+					pnames = append(pnames, prm.Name)
+				}
+			}
+			symxAssert(vhSameStrings(vhSortStrings(pnames), vhSortStrings(tnames)), "C08.written.template-names-and-path-parameters-correspond")
+			for _, r := range op.Responses {
+				symxAssert(r.Description != nil, "C08.written.every-response-has-a-description")
+			}
+		}
+	}
+	symxAssert(nOps == 2, "C08.written.both-operations-are-in-the-document")
+}
+
+func vhSortedAnyKeys[V any](m map[string]V) []string {
+	var ks []string
+	for k := range m {
+		ks = append(ks, k)
+	}
+	return vhSortStrings(ks)
+}
+
+func vhCollectRefs(v any, out *[]string) {
+	switch x := v.(type) {
+	case map[string]any:
+		for _, k := range vhSortedAnyKeys(x) {
+			if k == "$ref" {
+				if s, ok := x[k].(string); ok {
+					*out = append(*out, s)
+				}
+				continue
+			}
+			vhCollectRefs(x[k], out)
+		}
+	case []any:
+		for _, e := range x {
+			vhCollectRefs(e, out)
+		}
+	}
+}
+
+// the same with references: a 3.0 document that GenerateSpec returns (real validator) has no dangling $ref, whatever
+// types the route and the models name
+func vh_C08_written_30_refs_Q() {
+	symxRealLibrary("openapi3.Validate")
+	hasM := symxBool("hasM")
+	models := &definitions.Models{Structs: []definitions.StructMetadata{{Name: definitions.Rfc7807ErrorName}}}
+	if hasM {
+		ft := vhClosureTypes[symxChoice("M.field", len(vhClosureTypes))]
+		models.Structs = append(models.Structs, definitions.StructMetadata{Name: "M", Fields: []definitions.FieldMetadata{{Name: "F", Type: ft}}})
+	}
+	if symxBool("hasE") {
+		models.Enums = append(models.Enums, definitions.EnumMetadata{Name: "E", Type: "string", Values: []string{"x"}})
+	}
+	rt := vhClosureTypes[symxChoice("ret.type", len(vhClosureTypes))]
+	pt := vhClosureTypes[symxChoice("param.type", 4)]
+	route := definitions.RouteMetadata{OperationId: "op", HttpVerb: definitions.HttpPost, RestMetadata: definitions.RestMetadata{Path: "/r"}, ResponseDescription: "ok", ResponseSuccessCode: 200, HasReturnValue: true,
+		FuncParams: []definitions.FuncParam{{ParamMeta: definitions.ParamMeta{Name: "g", TypeMeta: definitions.TypeMetadata{Name: pt}}, PassedIn: definitions.PassedInBody, NameInSchema: "p"}},
+		Responses:  []definitions.FuncReturnValue{{Ordinal: 0, TypeMetadata: definitions.TypeMetadata{Name: rt}}, {Ordinal: 1, TypeMetadata: definitions.TypeMetadata{Name: "error"}}}}
+	defs := []definitions.ControllerMetadata{{Name: "Ctl", Tag: "T", RestMetadata: definitions.RestMetadata{Path: "/c"}, Routes: []definitions.RouteMetadata{route}}}
+	cfg := &definitions.OpenAPIGeneratorConfig{OpenAPI: "3.0.0", BaseURL: "https://x", Info: definitions.OpenAPIInfo{Title: "t", Version: "1"}}
+	out, err := swagen30.GenerateSpec(cfg, defs, models)
+	if err != nil {
+		symxCover("C08.written.refs.refused")
+		return
+	}
+	symxCover("C08.written.refs.accepted")
+	var doc map[string]any
+	symxAssert(json.Unmarshal(out, &doc) == nil, "C08.written.document-parses")
+	var refs []string
+	vhCollectRefs(doc, &refs)
+	comps, _ := doc["components"].(map[string]any)
+	schemas, _ := comps["schemas"].(map[string]any)
+	const pre = "#/components/schemas/"
+	for _, r := range refs {
+		ok := len(r) > len(pre) && r[:len(pre)] == pre
+		if ok {
+			_, ok = schemas[r[len(pre):]]
+		}
+		symxAssert(ok, "C08.written.every-ref-resolves-to-an-existing-component")
+	}
 }
